@@ -157,7 +157,7 @@ def show(e, fn=None, depth=0):
     if k == "str":
         return repr(e[1])
     if k in ("arg",):
-        return fn.arg_name(e[1]) if fn else "arg%d" % e[1]
+        return fn.arg_name(e[1]) if (fn and isinstance(e[1], int)) else "arg%s" % (e[1],)
     if k == "local":
         return (fn.names.get(e[1]) if fn else None) or "_%d" % e[1]
     if k in ("place", "ref"):
